@@ -21,6 +21,15 @@
 (*   bounds explicit bucket boundaries (same unit), strictly increasing            *)
 (*   ncb    callbacks 0..ncb-1; callback 0 is created with the instrument and is   *)
 (*          always registered; attribute set a is observed by callback a % ncb     *)
+(*   wide   TRUE for exponential-histogram streams over a WIDE value range: value j  *)
+(*          is vals[j] (its sign: -1, 0, 1) times 2^exps[j], exponents up to +-300; *)
+(*          the scale-0 index of 2^e is exactly e-1 (upper bounds inclusive) and,   *)
+(*          base-2 buckets being nested, the index at any coarser scale is a floor  *)
+(*          division of it -- which is what makes bucket counts reported at         *)
+(*          DIFFERENT scales (the delta stream starts afresh every cycle, the       *)
+(*          cumulative stream keeps re-scaling) exactly comparable.  Sums of such   *)
+(*          values are not exact in float64 and are not part of the comparison.     *)
+(*   exps   the exponents (<<>> unless wide)                                         *)
 (*   bk, ix derived tables (WithTables): explicit bucket / scale-0 exponential index *)
 (*          of every value of the alphabet                                          *)
 EXTENDS Integers, Sequences, FiniteSets
@@ -77,8 +86,11 @@ ExpoIdx(C, b, sg, m) ==
 (* the configuration extended with the per-value tables (computed once per stream) *)
 WithTables(C) ==
   [kind |-> C.kind, agg |-> C.agg, na |-> C.na, vals |-> C.vals, unit |-> C.unit, bounds |-> C.bounds, ncb |-> C.ncb,
+   wide |-> C.wide, exps |-> C.exps,
    bk |-> [j \in 1..Len(C.vals) |-> ExplicitBucket(C, C.vals[j])],
-   ix |-> [j \in 1..Len(C.vals) |-> IF C.vals[j] = 0 THEN 0 ELSE Idx0(C, Abs(C.vals[j]))]]
+   ix |-> [j \in 1..Len(C.vals) |-> IF C.vals[j] = 0 THEN 0
+                                    ELSE IF C.wide THEN C.exps[j] - 1
+                                    ELSE Idx0(C, Abs(C.vals[j]))]]
 
 ExpoZero(C, b) == SumF([j \in 1..NV(C) |-> IF Val(C, j) = 0 THEN b.cnt[j] ELSE 0], NV(C))
 
